@@ -281,6 +281,98 @@ fn rename_case(sh: &mut Shard, tape: &[u32]) -> Result<(), Violation> {
     Ok(())
 }
 
+// ------------------------------------------------------------------------------ (b2) declaration order
+
+/// The verdict on a set of DECLARE statements does not depend on where they stand: at the top of the file, after
+/// the main module's statements, or after the subprogram bodies - whether they agree with the bodies or not.
+fn declare_order_case(sh: &mut Shard, tape: &[u32]) -> Result<(), Violation> {
+    let mut t = Tape::new(tape);
+    let mutation = t.choose(6);
+    let which = t.raw();
+    let used = t.used();
+    let mut cfg = GenCfg::core(8, 2);
+    cfg.procs = true;
+    cfg.errors = false;
+    cfg.data = false;
+    cfg.deftypes = false;
+    let mut prog = Gen::new(&tape[used.min(tape.len())..], &cfg).calls_program();
+    prog.declare = true;
+    let mut what = "matching";
+    if mutation > 0 && !prog.procs.is_empty() {
+        let pi = ((which as u64 * prog.procs.len() as u64) >> 32) as usize;
+        let mut q = prog.procs[pi].clone();
+        match mutation {
+            1 => {
+                what = "one-parameter-more";
+                let var = q.vars.len();
+                q.params.push(Param { name: "ZX%".into(), var, sty: STy::B(Ty::Int), array: false, extended: false });
+            }
+            2 if !q.params.is_empty() => {
+                what = "one-parameter-fewer";
+                q.params.pop();
+            }
+            3 if !q.params.is_empty() => {
+                what = "parameter-of-another-type";
+                let pa = &mut q.params[0];
+                let other = if pa.sty == STy::B(Ty::Str) { Ty::Int } else { Ty::Str };
+                pa.sty = STy::B(other);
+                if !pa.extended {
+                    let base = pa.name.trim_end_matches(['%', '&', '!', '#', '$']).to_string();
+                    pa.name = format!("{}{}", base, other.suffix());
+                }
+            }
+            4 if q.ret.is_some() => {
+                what = "function-of-another-type";
+                let old = q.ret.unwrap();
+                let other = if old == Ty::Long { Ty::Double } else { Ty::Long };
+                q.ret = Some(other);
+                let base = q.name.trim_end_matches(['%', '&', '!', '#', '$']).to_string();
+                q.name = format!("{}{}", base, other.suffix());
+            }
+            5 if !q.params.is_empty() => {
+                what = "parameter-style";
+                let pa = &mut q.params[0];
+                if pa.extended {
+                    pa.extended = false;
+                    let t = pa.sty.ety().unwrap_or(Ty::Single);
+                    pa.name = format!("{}{}", pa.name, t.suffix());
+                } else {
+                    pa.extended = true;
+                    pa.name = pa.name.trim_end_matches(['%', '&', '!', '#', '$']).to_string();
+                }
+            }
+            _ => {}
+        }
+        if what != "matching" {
+            prog.declare_as.push((pi, q));
+        }
+    }
+    sh.eval();
+    let mut outcomes: Vec<(u8, String, Behaviour)> = vec![];
+    for w in 0..3u8 {
+        prog.declare_where = w;
+        let r = render(&prog, &Layout::plain());
+        sh.journal(&r.text);
+        let b = behaviour(&r.text);
+        outcomes.push((w, r.text, b));
+    }
+    sh.class(&format!("declare-order:{}:{}", what, if outcomes[0].2.verdict == "accepted" { "accepted" } else { "rejected" }));
+    sh.nontrivial(hash64(&(&outcomes[0].1, what)));
+    for k in 1..3 {
+        if outcomes[k].2.verdict != outcomes[0].2.verdict {
+            let inputs = json!({"kind": "declare-order", "declares_at_the_top": outcomes[0].1, "declares_elsewhere": outcomes[k].1, "what": what, "where": if k == 1 { "after the main module's statements" } else { "after the subprogram bodies" }});
+            return Err(Violation::new(format!("c12-declare-order-verdict:{}", what), "the checker's verdict depends on where the DECLARE statements stand", inputs).exp_obs(outcomes[0].2.verdict.clone(), outcomes[k].2.verdict.clone()));
+        }
+        // (the row of a run-time error moves with the DECLARE lines: not compared)
+        if outcomes[k].2.stdout != outcomes[0].2.stdout || outcomes[k].2.end != outcomes[0].2.end {
+            let inputs = json!({"kind": "declare-order", "declares_at_the_top": outcomes[0].1, "declares_elsewhere": outcomes[k].1, "what": what});
+            return Err(Violation::new(format!("c12-declare-order-behaviour:{}", what), "the program's behaviour depends on where the DECLARE statements stand", inputs).exp_obs(format!("{:?}", outcomes[0].2), format!("{:?}", outcomes[k].2)));
+        }
+    }
+    sh.sample_sparse(401, || json!({"what": what, "program": outcomes[2].1}));
+    Ok(())
+}
+
 // ------------------------------------------------------------------------------------------ (c)
 
 #[derive(Clone, Copy, PartialEq, Debug)]
@@ -790,7 +882,7 @@ impl Prop for C12 {
         "C12"
     }
     fn rule(&self) -> &'static str {
-        "(a) Soundness: accepted programs of the wide generator (C08's) without READ / INPUT / LINE INPUT / PRINT USING / INPUT # / GET, two thirds with wrongly typed expressions planted inside parentheses, argument lists, subscripts, CASE lists and PRINT lists (so that acceptance itself is under test), are run: a run-time Type mismatch (13) or a wrong-kind panic is a violation. (b) Renaming: every user identifier (variables, labels, procedures, parameters, types, fields, constants) of a generated program - accepted, or rejected through an injected fault - is renamed consistently (same first letter, same suffix); verdict class, output, error code and error row must be unchanged. (c) One local edit of an accepted program: a numeric operand of any operator at ANY expression position (nested in parentheses, call arguments, subscripts, CASE lists, PRINT lists, block headers) replaced by a string literal; an extra argument on a user call; a plain variable of another type passed by reference; a duplicated CONST; a NEXT naming another counter. Expected: rejected, error of the matching family, located in the edited statement (printer's site map). Non-trivial = (a) >= 3 statements ran and a built-in was used, (b) program printed or was rejected, (c) edit at nesting depth >= 1 (or a statement-level edit); distinct by program text (+ edit)."
+        "(a) Soundness: accepted programs of the wide generator (C08's) without READ / INPUT / LINE INPUT / PRINT USING / INPUT # / GET, two thirds with wrongly typed expressions planted inside parentheses, argument lists, subscripts, CASE lists and PRINT lists (so that acceptance itself is under test), are run: a run-time Type mismatch (13) or a wrong-kind panic is a violation. (b) Renaming: every user identifier (variables, labels, procedures, parameters, types, fields, constants) of a generated program - accepted, or rejected through an injected fault - is renamed consistently (same first letter, same suffix); verdict class, output, error code and error row must be unchanged. (b2) Declaration order: the DECLARE statements of a generated program with subprograms - agreeing with the bodies, or with one of them changed (a parameter more or fewer, a parameter of another type or style, a function of another type) - are placed at the top, after the main module's statements, and after the bodies: verdict class and behaviour must be the same at all three places. (c) One local edit of an accepted program: a numeric operand of any operator at ANY expression position (nested in parentheses, call arguments, subscripts, CASE lists, PRINT lists, block headers) replaced by a string literal; an extra argument on a user call; a plain variable of another type passed by reference; a duplicated CONST; a NEXT naming another counter. Expected: rejected, error of the matching family, located in the edited statement (printer's site map). Non-trivial = (a) >= 3 statements ran and a built-in was used, (b) program printed or was rejected, (c) edit at nesting depth >= 1 (or a statement-level edit); distinct by program text (+ edit)."
     }
     fn assumptions(&self) -> Vec<&'static str> {
         vec!["error families: string operand -> {TypeMismatch, ArgumentTypeMismatch}; extra argument -> ArgumentCountMismatch; by-reference type -> {ArgumentTypeMismatch, TypeMismatch}; duplicate -> DuplicateDefinition; NEXT -> NextWithoutFor", "undefined labels are covered by C11's fault injection"]
@@ -803,6 +895,8 @@ impl Prop for C12 {
         sh.search(2, n, 80, 400, |sh, tape| rename_case(sh, tape));
         let n = sh.share(sh.tier.pick(12_000, 400_000));
         sh.search(3, n, 80, 400, |sh, tape| edit_case(sh, tape));
+        let n = sh.share(sh.tier.pick(2_400, 80_000));
+        sh.search(4, n, 80, 400, |sh, tape| declare_order_case(sh, tape));
     }
     fn replay(&self, _sh: &mut Shard, inputs: &Value) -> Result<(), Violation> {
         match inputs["kind"].as_str().unwrap_or("") {
@@ -819,6 +913,14 @@ impl Prop for C12 {
             }
             "jump-scope" => check_jump(inputs["program"].as_str().unwrap_or(""), inputs["row"].as_u64().unwrap_or(0) as u32, inputs["same_scope"].as_bool().unwrap_or(false), inputs.clone()),
             "placement" => check_placement(inputs["program"].as_str().unwrap_or(""), (inputs["rows"][0].as_u64().unwrap_or(0) as u32, inputs["rows"][1].as_u64().unwrap_or(0) as u32), inputs["reference_class"].as_str().unwrap_or(""), inputs["position"].as_str().unwrap_or(""), inputs["context"].as_str().unwrap_or(""), inputs.clone()),
+            "declare-order" => {
+                let a = behaviour(inputs["declares_at_the_top"].as_str().unwrap_or(""));
+                let b = behaviour(inputs["declares_elsewhere"].as_str().unwrap_or(""));
+                if a.verdict != b.verdict || a.stdout != b.stdout || a.end != b.end {
+                    return Err(Violation::new(format!("c12-declare-order-verdict:{}", inputs["what"].as_str().unwrap_or("replay")), "the checker's verdict (or the behaviour) depends on where the DECLARE statements stand", inputs.clone()).exp_obs(format!("{:?}", a), format!("{:?}", b)));
+                }
+                Ok(())
+            }
             "rename" => check_rename(inputs["original"].as_str().unwrap_or(""), inputs["renamed"].as_str().unwrap_or(""), inputs["what"].as_str().unwrap_or("replay")).map(|_| ()),
             "edit" => {
                 let fam: Vec<String> = inputs["family"].as_array().map(|a| a.iter().filter_map(|x| x.as_str().map(|s| s.to_string())).collect()).unwrap_or_default();
